@@ -399,9 +399,109 @@ def _stage_xor(py4hw, top, a, r):
     return Stage(top, 'stage', a, r)
 
 
+# ------------------------------------------------------------------------------------------------
+# DIFFERENT behavioural classes that share IDENTIFIER names: a constructor argument stored as `self.<name> = <name>` in one class,
+# the same <name> as a local variable / as an attribute assigned only in clock() / as a constant-initialised state in others
+def _id_saturate(py4hw, top, a, r):
+    class Saturate(py4hw.Logic):
+        def __init__(self, parent, name, a, r, limit):
+            super().__init__(parent, name)
+            self.a = self.addIn('a', a)
+            self.r = self.addOut('r', r)
+            self.count = 0
+            self.limit = limit
+
+        def clock(self):
+            if (self.a.get() == 1):
+                if (self.count < self.limit):
+                    self.count = self.count + 1
+            self.r.prepare(self.count)
+    return Saturate(top, 'stage', a, r, 5)
+
+
+def _id_window(py4hw, top, a, r):
+    class Window(py4hw.Logic):
+        def __init__(self, parent, name, a, r):
+            super().__init__(parent, name)
+            self.a = self.addIn('a', a)
+            self.r = self.addOut('r', r)
+
+        def clock(self):
+            limit = self.a.get() & 7
+            if (self.a.get() > limit):
+                self.r.prepare(limit)
+            else:
+                self.r.prepare(self.a.get())
+    return Window(top, 'stage', a, r)
+
+
+def _id_hold(py4hw, top, a, r):
+    class Hold(py4hw.Logic):
+        def __init__(self, parent, name, a, r):
+            super().__init__(parent, name)
+            self.a = self.addIn('a', a)
+            self.r = self.addOut('r', r)
+
+        def clock(self):
+            self.limit = self.a.get() & 3
+            self.r.prepare(self.limit)
+    return Hold(top, 'stage', a, r)
+
+
+def _id_scale(py4hw, top, a, r):
+    class Scale(py4hw.Logic):
+        def __init__(self, parent, name, a, r, step, total):
+            super().__init__(parent, name)
+            self.a = self.addIn('a', a)
+            self.r = self.addOut('r', r)
+            self.count = 0
+            self.step = step
+            self.total = total
+
+        def clock(self):
+            self.count = self.count + self.step
+            if (self.count > self.total):
+                self.count = 0
+            self.r.prepare(self.count)
+    return Scale(top, 'stage', a, r, 3, 40)
+
+
+def _id_ramp(py4hw, top, a, r):
+    class Ramp(py4hw.Logic):
+        def __init__(self, parent, name, a, r):
+            super().__init__(parent, name)
+            self.a = self.addIn('a', a)
+            self.r = self.addOut('r', r)
+            self.total = 0
+
+        def clock(self):
+            step = self.a.get() & 1
+            self.total = self.total + step + 1
+            self.r.prepare(self.total)
+    return Ramp(top, 'stage', a, r)
+
+
+def _id_mask(py4hw, top, a, r):
+    class Mask(py4hw.Logic):
+        def __init__(self, parent, name, a, r):
+            super().__init__(parent, name)
+            self.a = self.addIn('a', a)
+            self.r = self.addOut('r', r)
+
+        def propagate(self):
+            limit = self.a.get() >> 1
+            step = limit & 3
+            self.r.put(limit ^ step)
+    return Mask(top, 'stage', a, r)
+
+
 SAMENAME = {'up': _stage_up, 'down': _stage_down, 'up2': _stage_up2, 'acc': _stage_acc, 'xor': _stage_xor}
 # variants that must give the SAME text (identical source, different class objects): the control
 SAMENAME_EQUAL = [('up', 'up2')]
+IDENTS = {'saturate': _id_saturate, 'window': _id_window, 'hold': _id_hold, 'scale': _id_scale, 'ramp': _id_ramp, 'mask': _id_mask}
+FAMILIES = {'same-name classes': (SAMENAME, SAMENAME_EQUAL), 'shared identifier names': (IDENTS, [])}
+VARIANTS = dict(SAMENAME)
+VARIANTS.update(IDENTS)
 
 
 def samename(variant, W=8):
@@ -412,7 +512,7 @@ def samename(variant, W=8):
         top = box_class('STop')(hw, 'top')
         top.addIn('a', a)
         top.addOut('r', r)
-        st = SAMENAME[variant](py4hw, top, a, r)
+        st = VARIANTS[variant](py4hw, top, a, r)
     return dict(hw=hw, top=top, stage=st, inputs={'a': a}, r=r, variant=variant, W=W)
 
 
